@@ -187,28 +187,39 @@ def formation_edits(ctx, rid="R5"):
         ctx.decide(o, ok, detail, detail)
 
 
-def rules(ctx):
-    sites = common.sites_of(ctx, SCHEDULE)
-    for fn, same in FRAMES.items():
-        common.frame_rule(ctx, "R1", SCHEDULE, sites, S(fn), same,
-                          "%s leaves %s untouched" % (fn, ", ".join(same)))
-    tsites = common.sites_of(ctx, TOUR)
-    for fn, same in TOUR_FRAMES.items():
-        common.frame_rule(ctx, "R1.tour", TOUR, tsites, T(fn), same, "Tour::%s leaves %s untouched" % (fn, ", ".join(same)))
-    purity.no_public_mutators(ctx, "R2.no-public-mutators")
-    purity.no_interior_mutability(ctx, "R2.no-interior-mutability")
-    hand_back(ctx)
-    last_node_overwrites(ctx)
-    must_depend(ctx, "R4.emptied-vehicle-is-replaced", "T1", S("remove_segment"), "ret", [call(S("replace_vehicle_by_dummy")), call(T("remove"))],
-                "remove_segment: a vehicle whose whole tour is removed is replaced by a dummy (its trips are kept)")
-    o, fd = ctx.require_fn("R4.emptied-provider-disappears", "T1", S("update_tours"),
-                           "update_tours: a provider left without a tour is deleted from vehicles, tours and the id listings")
-    if fd is not None:
-        s = ctx.an.summaries.get(S("update_tours"))
-        need = {"mut:2": "vehicles", "mut:3": "tours", "mut:7": "vehicle_ids_grouped_and_sorted", "mut:6": "dummy_tours", "mut:8": "dummy_ids_sorted"}
-        miss = [n for ch, n in need.items() if ch not in s.channels]
-        ctx.decide(o, not miss, "all five collections are written", "update_tours never writes: %s" % ", ".join(miss))
-    o, fdr = ctx.require_fn("R4.tour-vanishes-only-if-nothing-is-left", "T1", T("remove"),
+def positions_count_path_nodes(ctx, rid="R4"):
+    """an index taken from enumerate() over a path is used to split the path: it must count path positions, so no adaptor
+    that drops elements from the middle (filter, filter_map, skip, step_by) may run before enumerate()"""
+    DROPS = ("::filter", "::filter_map", "::skip", "::skip_while", "::step_by", "::rev")
+    key = S("fit_path_into_tour")
+    o, fd0 = ctx.require_fn("%s.fit-positions-count-path-nodes" % rid, "T12", key,
+                            "fit_path_into_tour: the position at which the moved part is split off counts nodes of the path (enumerate before filtering)")
+    if fd0 is None:
+        return
+    seen, bad = 0, []
+    for f in hosts(ctx, key):
+        for c in f.body.calls():
+            if (c.decl or "") != "core::iter::traits::iterator::Iterator::enumerate" and not (c.callee or "").endswith("Iterator::enumerate"):
+                continue
+            ch = direct_chain(f, c.args[0])
+            if not any(x.startswith("solution::path::Path::") for x in ch):
+                continue
+            seen += 1
+            hit = [x for x in ch if any(x.endswith(d) or ("::" + x.split("::")[-1]) == d for d in DROPS)]
+            if hit:
+                bad.append((c, hit[0]))
+    if bad:
+        ctx.bad(o, "enumerate() at %s runs after %s: the index counts the candidates that passed the filter, not the position in the path, "
+                "so the path is split at the wrong node and nodes end up in the wrong tour" % (bad[0][0].line(), bad[0][1].split("::")[-1]), loc=bad[0][0].line())
+    elif seen:
+        ctx.ok(o, "%d enumerate() over the path, none behind a dropping adaptor" % seen)
+    else:
+        ctx.undecided(o, "no enumerate() over the path found")
+
+
+def tour_vanishes_rule(ctx, rid="R4"):
+    """shared with C12 (reference semantics of remove)"""
+    o, fdr = ctx.require_fn("%s.tour-vanishes-only-if-nothing-is-left" % rid, "T1", T("remove"),
                             "Tour::remove reports 'nothing left' for a dummy tour only when no node remains, for a real tour when only depots remain")
     if fdr is not None:
         def opt_aggs(v):
@@ -249,6 +260,31 @@ def rules(ctx):
                        "none of the %d branches deciding between 'nothing left' and 'shortened tour' looks at the dummy flag: a dummy tour left "
                        "with one or two trips is deleted and its trips vanish (or a real tour of two depots is kept)" % len(deciding),
                        loc=deciding[0].line())
+
+
+def rules(ctx):
+    sites = common.sites_of(ctx, SCHEDULE)
+    for fn, same in FRAMES.items():
+        common.frame_rule(ctx, "R1", SCHEDULE, sites, S(fn), same,
+                          "%s leaves %s untouched" % (fn, ", ".join(same)))
+    tsites = common.sites_of(ctx, TOUR)
+    for fn, same in TOUR_FRAMES.items():
+        common.frame_rule(ctx, "R1.tour", TOUR, tsites, T(fn), same, "Tour::%s leaves %s untouched" % (fn, ", ".join(same)))
+    purity.no_public_mutators(ctx, "R2.no-public-mutators")
+    purity.no_interior_mutability(ctx, "R2.no-interior-mutability")
+    hand_back(ctx)
+    last_node_overwrites(ctx)
+    must_depend(ctx, "R4.emptied-vehicle-is-replaced", "T1", S("remove_segment"), "ret", [call(S("replace_vehicle_by_dummy")), call(T("remove"))],
+                "remove_segment: a vehicle whose whole tour is removed is replaced by a dummy (its trips are kept)")
+    o, fd = ctx.require_fn("R4.emptied-provider-disappears", "T1", S("update_tours"),
+                           "update_tours: a provider left without a tour is deleted from vehicles, tours and the id listings")
+    if fd is not None:
+        s = ctx.an.summaries.get(S("update_tours"))
+        need = {"mut:2": "vehicles", "mut:3": "tours", "mut:7": "vehicle_ids_grouped_and_sorted", "mut:6": "dummy_tours", "mut:8": "dummy_ids_sorted"}
+        miss = [n for ch, n in need.items() if ch not in s.channels]
+        ctx.decide(o, not miss, "all five collections are written", "update_tours never writes: %s" % ", ".join(miss))
+    tour_vanishes_rule(ctx)
+    positions_count_path_nodes(ctx)
     formation_edits(ctx)
     # the documented effect on formations: every node that leaves or enters a tour has its formation updated (shared with C03.R3)
     from .C03 import formations_in_step
@@ -256,6 +292,9 @@ def rules(ctx):
     formations_in_step(ctx)
     for ob in ctx.obligations[before:]:
         ob.id = ob.id.replace("C13/R3.", "C13/R6.formations.")
+    # the conflict set an insertion displaces is decided by the two time prefilters (shared with C12.R3)
+    from .C12 import tie_prefilter
+    tie_prefilter(ctx)
     from .C10 import fresh_ids
     fresh_ids(ctx, sites)
 
